@@ -51,7 +51,8 @@
    the stale-variable witness below reads z in the clause before `for z`).
    MISSING from the full statement: comprehensions that read one of their
    variables before the clause binding it (where the code as it is diverges
-   from the specification), closures / lambda (cells and free variables), load, and the literal folding
+   from the specification), closures / lambda (cells and free variables: proved for the extended generator
+   CompileClos.v as codegen_correct_partial3, milestone 3 at the end of this file), load, and the literal folding
    of fcomp.plus / slot numbering (codegen_correct_partial is about
    compile_prog p; fold_prog and number_prog are the identity on programs
    without adjacent addable literals and comprehensions, see
@@ -299,3 +300,232 @@ Qed.
 (* the stale-variable witness is rejected by the guard: `for y in ([z] ...)` names z before `for z` *)
 Example stale_witness_outside : in_fragment2 (number_prog (fold_prog stale_witness)) = false.
 Proof. reflexivity. Qed.
+
+(* ================================================================ milestone 3: lambda expressions and closures
+
+   The code generator of Compile.v stops at lambda (UNSUPPORTED "compile:lambda") and compiles every
+   function without cells and free variables.  CompileClos.v extends it as compile.go / resolve.go do:
+   a local that a nested function captures is a Cell (LOCALCELL / SETLOCALCELL, spilled to a fresh cell
+   on entry: fc_cells), a captured variable is a free variable of every function between its owner and
+   its use (FREECELL), and a def / lambda pushes the CELLS of its free variables (LOCAL of a cell slot,
+   FREE) together with its default values into the one tuple MAKEFUNC takes.  VM.v already implements
+   those instructions, Ref.v already evaluates lambda / nested defs on names with cells.
+
+   codegen_correct_partial3: the equation of codegen_correct for run_vm3 p = VM.run (compile_prog3 p),
+   for every program of in_fragment3 (FragClos.v; a superset of in_fragment2: fragment3_contains_fragment2)
+   = in_fragment2 without the restrictions "no lambda", "no def nested in a def", "no function mentions a
+   variable of an enclosing function": lambda expressions and defs nested in defs / lambdas to any depth,
+   capturing ANY NUMBER of parameters and locals of the enclosing functions -- read in the nested
+   function, mutated through it (the counter below), REASSIGNED by the owner before or after the closure
+   is made (cell semantics: `get` below sees 7), passed on through intermediate functions (`inner` below
+   captures a through `middle`).  For all fuel, by the simulation of milestone 2 with the machine's frame
+   (locals AND captured cells) related to the evaluator's environment by ProofsClosEnv.R3.
+
+   THE EXACT GUARD: the boolean in_fragment3 (FragClos.v) and one run-time condition.
+   (g1) the free variables of a function are first mentioned, in the evaluator's traversal of its
+        syntax, in the order in which the resolver numbers them (they differ only where a comprehension's
+        clauses are visited after its body);
+   (g2) no shadowing across function boundaries: a name that a nested function mentions and an
+        enclosing block binds is a free variable of the nested function;
+   (g3) lambda not inside a comprehension; comprehension variables are not captured (known finding);
+   (g4) cells_match: the frame's cell slots are those of the names the evaluator boxes, in order; no load;
+   (g5) every function of the program, as the evaluator finds it by its id, is in the fragment
+        (funs_ok3b, a check over the ids that occur; ProofsClosFuns.v proves that no other id finds a
+        function and that the compiled program has the same function under every id);
+   (g6) THE RUN-TIME CONDITION "no forged closure is entered".  The machine passes captured cells by
+        position, the evaluator by name; they agree for every function value MAKEFUNC builds.  The value
+        domain also contains function values with any other list of captured cells; no primitive of
+        Values.v builds one, but the proofs use the primitives opaquely (the theorem holds for ANY
+        behaviour of the built-in library), so a call of such a forged value cannot be excluded
+        statically.  VMClos.v defines the GUARDED machine run_chk = VM.run that stops with
+        VUnsup "forged-closure" when a step pushes a frame whose captured cells are not named exactly
+        as the free variables of the function's code.  The simulation is about the guarded machine
+        (codegen_correct_partial3_guarded: it observes what the evaluator observes, or its guard fired);
+        the guarded machine IS the machine on every run in which the guard does not fire
+        (guard_is_transparent); hence codegen_correct_partial3, whose third hypothesis is decided by
+        running the guarded machine and holds in every execution of the model (example3_runs).
+   MISSING for the full statement: the invariant "every function value in the state was built by
+   MAKEFUNC" through all primitives of Values.v (it discharges (g6)), shadowing of a captured name,
+   captured comprehension variables, lambda inside comprehensions, free variables numbered against the
+   order of mention, load.
+   THE TIE of the new model: TieClos.v has the comparators (codegen_check3: the real compiler's bytecode
+   against compile_prog3 -- control-flow graph, slot layout, cell slots and free-variable names of every
+   function; compiled_check_calls3: compile_prog3 + VM.v end to end against the real pipeline).  They are
+   not called by checks/c01.py yet (its ties (a) and (d) skip programs with lambda / closures); evaluated by
+   hand on the corpus and 2410 generated programs (seeds 1, 2, 7, 11; 715 of the 2544 runs use lambda or
+   captured variables): no difference. *)
+From SV Require Import C01.CompileClos C01.VMClos C01.FragClos C01.ProofsClosFuns C01.ProofsClosMain C01.ProofsClosSub.
+
+Theorem codegen_correct_partial3 :
+  forall p : program,
+    in_fragment3 p = true ->
+    forall n m : nat,
+      ob_verdict (observe_ref (run_module p n)) <> OutOfFuel ->
+      ob_verdict (observe_vm (run_chk3 p m)) <> OutOfFuel ->
+      ob_verdict (observe_vm (run_chk3 p m)) <> Unsupported "forged-closure" ->     (* (g6) *)
+      observe_vm (run_vm3 p m) = observe_ref (run_module p n).
+Proof.
+  intros p Hf. apply andb_true_iff in Hf. destruct Hf as [Hok Hfuns].
+  exact (codegen_correct_partial3_plain_lemma p (funs_ok3_of_b p Hfuns) Hok).
+Qed.
+
+(* the guarded machine observes what the evaluator observes, or its guard fired *)
+Theorem codegen_correct_partial3_guarded :
+  forall p : program,
+    in_fragment3 p = true ->
+    forall n m : nat,
+      ob_verdict (observe_ref (run_module p n)) <> OutOfFuel ->
+      ob_verdict (observe_vm (run_chk3 p m)) <> OutOfFuel ->
+      observe_vm (run_chk3 p m) = observe_ref (run_module p n)
+      \/ ob_verdict (observe_vm (run_chk3 p m)) = Unsupported "forged-closure".
+Proof.
+  intros p Hf. apply andb_true_iff in Hf. destruct Hf as [Hok Hfuns].
+  exact (codegen_correct_partial3_lemma p (funs_ok3_of_b p Hfuns) Hok).
+Qed.
+
+(* the guard does not change the machine: a run of the guarded machine that does not end with the
+   guard's verdict is the run of the machine, step for step (for every program and every code) *)
+Theorem guard_is_transparent :
+  forall (p : program) (m : nat) (r : vresult) (k : nat),
+    run_chk3 p m = Some (r, k) -> r <> forged_result -> run_vm3 p m = Some (r, k).
+Proof. exact run_chk3_agrees. Qed.
+
+(* with the literal folding and the slot numbering of the pipeline *)
+Theorem codegen_correct_partial3_folded :
+  forall p : program,
+    in_fragment3 p = true -> number_prog (fold_prog p) = p ->
+    forall n m : nat,
+      ob_verdict (observe_ref (run_module p n)) <> OutOfFuel ->
+      ob_verdict (observe_vm (run_chk_compiled3 p m)) <> OutOfFuel ->
+      ob_verdict (observe_vm (run_chk_compiled3 p m)) <> Unsupported "forged-closure" ->
+      observe_vm (run_compiled3 p m) = observe_ref (run_module p n).
+Proof.
+  intros p Hf. apply andb_true_iff in Hf. destruct Hf as [Hok Hfuns].
+  exact (codegen_correct_partial3_folded_lemma p Hok (funs_ok3_of_b p Hfuns)).
+Qed.
+
+(* the generated code never drives the machine into a state the real one would crash in (operand stack
+   underflow, bad jump target, missing iterator, a cell slot without a cell, FREE without a cell) *)
+Theorem codegen_never_stuck_partial3 :
+  forall p : program,
+    in_fragment3 p = true ->
+    forall n m r k,
+      ob_verdict (observe_ref (run_module p n)) <> OutOfFuel ->
+      run_chk3 p m = Some (r, k) ->
+      forall why, r <> VStuck why.
+Proof.
+  intros p Hf. apply andb_true_iff in Hf. destruct Hf as [Hok Hfuns].
+  exact (never_stuck3_lemma p (funs_ok3_of_b p Hfuns) Hok).
+Qed.
+
+(* what the boolean fragment gives the simulation: looking a function id up in the syntax tree and in the
+   compiled program agree on EVERY id, and every function found is in the fragment *)
+Theorem fragment3_function_ids :
+  forall p : program, in_fragment3 p = true -> funs_ok3 p.
+Proof.
+  intros p Hf. apply andb_true_iff in Hf. destruct Hf as [Hok Hfuns].
+  exact (funs_ok3_of_b p Hfuns).
+Qed.
+
+(* the new fragment contains the old one: a program without lambda, nested defs and captured variables
+   passes every check of in_fragment3 (no function has a free variable or a cell) *)
+Theorem fragment3_contains_fragment2 :
+  forall p : program, in_fragment2 p = true -> in_fragment3 p = true.
+Proof. exact in_fragment2_sub3. Qed.
+
+(* ---- the hypotheses are satisfiable:
+
+       def mk():
+           n = [0]
+           def inc():
+               n[0] += 1
+               return n[0]
+           return inc
+       c = mk()
+       trace(c(), c())                      # 1 2: the counter lives in the cell both share
+       def add(a):
+           return lambda b: a + b           # a lambda capturing a parameter
+       trace(add(2)(3))                     # 5
+       def cnt():
+           k = 0
+           def get():
+               return k
+           k = 7                            # reassigned by the owner after the closure is made
+           return get()
+       trace(cnt())                         # 7
+       def outer(a):
+           def middle(b):
+               def inner(c):
+                   return (a, b, c)         # two free variables, one passed on through middle
+               return inner
+           return middle
+       trace(outer(1)(2)(3))                # (1, 2, 3) *)
+Definition example3_prog : program :=
+  {| p_opts := {| o_set := false; o_while := true; o_recursion := false; o_toplevel := true |};
+     p_body := [
+       SDef 0 "mk" [] [
+          SAssign (TName "n" Q) (EList [EInt 0]) Q;
+          SDef 1 "inc" [] [ SAug Add (TIndex (EName "n" Q) (EInt 0) Q) (EInt 1) Q;
+                            SReturn (Some (EIndex (EName "n" Q) (EInt 0) Q)) ] Q;
+          SReturn (Some (EName "inc" Q)) ] Q;
+       SAssign (TName "c" Q) (ECall (EName "mk" Q) [] Q) Q;
+       SExpr (ECall (EName "trace" Q) [APos (ECall (EName "c" Q) [] Q); APos (ECall (EName "c" Q) [] Q)] Q);
+       SDef 2 "add" [PPlain "a"]
+          [ SReturn (Some (ELambda 3 [PPlain "b"] (EBinary Add Q (EName "a" Q) (EName "b" Q)) Q)) ] Q;
+       SExpr (ECall (EName "trace" Q) [APos (ECall (ECall (EName "add" Q) [APos (EInt 2)] Q) [APos (EInt 3)] Q)] Q);
+       SDef 4 "cnt" [] [
+          SAssign (TName "k" Q) (EInt 0) Q;
+          SDef 5 "get" [] [ SReturn (Some (EName "k" Q)) ] Q;
+          SAssign (TName "k" Q) (EInt 7) Q;
+          SReturn (Some (ECall (EName "get" Q) [] Q)) ] Q;
+       SExpr (ECall (EName "trace" Q) [APos (ECall (EName "cnt" Q) [] Q)] Q);
+       SDef 6 "outer" [PPlain "a"] [
+          SDef 7 "middle" [PPlain "b"] [
+             SDef 8 "inner" [PPlain "c"] [ SReturn (Some (ETuple [EName "a" Q; EName "b" Q; EName "c" Q])) ] Q;
+             SReturn (Some (EName "inner" Q)) ] Q;
+          SReturn (Some (EName "middle" Q)) ] Q;
+       SExpr (ECall (EName "trace" Q)
+                [APos (ECall (ECall (ECall (EName "outer" Q) [APos (EInt 1)] Q) [APos (EInt 2)] Q) [APos (EInt 3)] Q)] Q)
+     ] |}.
+
+Example example3_in_fragment3 : in_fragment3 example3_prog = true.
+Proof. reflexivity. Qed.
+
+(* it is outside the second fragment (defs nested in defs, lambda, captured variables) *)
+Example example3_not_in_fragment2 : in_fragment2 example3_prog = false.
+Proof. reflexivity. Qed.
+
+Example example3_fold : number_prog (fold_prog example3_prog) = example3_prog.
+Proof. reflexivity. Qed.
+
+(* the code of `mk` and `inc`: the captured local n is a cell of mk and a free variable of inc;
+   `inner` has the free variables a and b, `middle` passes a on (FREE 0) and owns the cell of b (LOCAL 0) *)
+Example example3_code :
+  option_map (fun fc => (fc_code fc, fc_cells fc, fc_free fc)) (find_code (cp_funs (compile_prog3 example3_prog)) 0)
+  = Some ([CONSTANT (VInt 0); MAKELIST 1; SETLOCALCELL 0; LOCAL 0 Q; MAKETUPLE 1; MAKEFUNC 1; SETLOCAL 1;
+           LOCAL 1 Q; RETURN; NONE; RETURN], [0], [])
+  /\ option_map (fun fc => (fc_code fc, fc_cells fc, fc_free fc)) (find_code (cp_funs (compile_prog3 example3_prog)) 1)
+  = Some ([FREECELL 0 Q; CONSTANT (VInt 0); DUP2; INDEX Q; CONSTANT (VInt 1); INPLACE_ADD Q; SETINDEX Q;
+           FREECELL 0 Q; CONSTANT (VInt 0); INDEX Q; RETURN; NONE; RETURN], [], ["n"])
+  /\ option_map (fun fc => (fc_code fc, fc_cells fc, fc_free fc)) (find_code (cp_funs (compile_prog3 example3_prog)) 7)
+  = Some ([FREE 0; LOCAL 0 Q; MAKETUPLE 2; MAKEFUNC 8; SETLOCAL 1; LOCAL 1 Q; RETURN; NONE; RETURN], [0], ["a"])
+  /\ option_map (fun fc => (fc_code fc, fc_cells fc, fc_free fc)) (find_code (cp_funs (compile_prog3 example3_prog)) 8)
+  = Some ([FREECELL 0 Q; FREECELL 1 Q; LOCAL 0 Q; MAKETUPLE 3; RETURN; NONE; RETURN], [], ["a"; "b"]).
+Proof. repeat split; vm_compute; reflexivity. Qed.
+
+(* both sides run to completion, the guard does not fire and the observation is non-trivial: five cells,
+   the closure in the global c holds cell 0 *)
+Example example3_runs :
+  ob_trace (observe_ref (run_module example3_prog 200)) = [(["1"; "2"], []); (["5"], []); (["7"], []); (["(1, 2, 3)"], [])]
+  /\ ob_cells (observe_ref (run_module example3_prog 200))
+     = [Some (VRef 2); Some (VInt 2); Some (VInt 7); Some (VInt 1); Some (VInt 2)]
+  /\ observe_vm (run_chk3 example3_prog 2000) = observe_ref (run_module example3_prog 200)
+  /\ observe_vm (run_vm3 example3_prog 2000) = observe_ref (run_module example3_prog 200).
+Proof. repeat split; vm_compute; reflexivity. Qed.
+
+Example example3_instance :
+  observe_vm (run_compiled3 example3_prog 2000) = observe_ref (run_module example3_prog 200).
+Proof.
+  apply codegen_correct_partial3_folded; [ exact example3_in_fragment3 | exact example3_fold | | | ];
+    vm_compute; discriminate.
+Qed.
